@@ -215,6 +215,11 @@ func (r *Report) add(pr *PathResult) {
 
 // RunPath executes entry along the given decision prefix and returns the result plus newly found alternatives.
 func (p *Program) RunPath(entry *ssa.Function, opt *Options, sol *Solver, prefix []Decision) (*PathResult, [][]Decision) {
+	return p.RunPathBody(entry, nil, opt, sol, prefix)
+}
+
+// RunPathBody runs either an SSA entry point or a host-level body along a decision prefix.
+func (p *Program) RunPathBody(entry *ssa.Function, body func(m *Machine), opt *Options, sol *Solver, prefix []Decision) (*PathResult, [][]Decision) {
 	sol.Reset()
 	m := &Machine{
 		P: p, Opt: opt, S: NewStore(), Sol: sol, prefix: prefix,
@@ -248,8 +253,12 @@ func (p *Program) RunPath(entry *ssa.Function, opt *Options, sol *Solver, prefix
 				m.RunInit(sp)
 			}
 		}
-		m.RunInit(entry.Pkg)
-		m.CallFunction(entry, nil, nil)
+		if body != nil {
+			body(m)
+		} else {
+			m.RunInit(entry.Pkg)
+			m.CallFunction(entry, nil, nil)
+		}
 		m.Res.End = "ok"
 	}()
 	m.Res.Decisions = m.decisions
@@ -262,8 +271,17 @@ func (p *Program) RunPath(entry *ssa.Function, opt *Options, sol *Solver, prefix
 
 // Explore runs all paths of entry with a pool of workers.
 func (p *Program) Explore(entry *ssa.Function, opt Options, workers int) *Report {
+	return p.explore(entry.String(), entry, nil, opt, workers)
+}
+
+// ExploreHost explores all paths of a host-level body (used by the translation-validation driver).
+func (p *Program) ExploreHost(name string, body func(m *Machine), opt Options, workers int) *Report {
+	return p.explore(name, nil, body, opt, workers)
+}
+
+func (p *Program) explore(name string, entry *ssa.Function, body func(m *Machine), opt Options, workers int) *Report {
 	t0 := time.Now()
-	rep := newReport(entry.String())
+	rep := newReport(name)
 	if opt.Budget == 0 {
 		opt.Budget = 2_000_000
 	}
@@ -324,7 +342,7 @@ func (p *Program) Explore(entry *ssa.Function, opt Options, workers int) *Report
 						}
 					}()
 					o := opt
-					res, alts = p.RunPath(entry, &o, sol, prefix)
+					res, alts = p.RunPathBody(entry, body, &o, sol, prefix)
 				}()
 				if res != nil {
 					rep.add(res)
